@@ -485,12 +485,12 @@ func minimalValue(ci *ctorInfo) reflect.Value {
 //   - required interface fields are non-nil, vector elements are non-nil;
 //   - bin.Fields hold only bits of declared conditional fields.
 type vgen struct {
-	t         *rapid.T
-	optional  int // conditional groups made present
-	nested    int // interface-typed values generated below the top level
-	presentZ  int // present-with-zero-value fields
-	nodes     int
-	excluded  []string // shapes left out because of listed known findings
+	t        *rapid.T
+	optional int // conditional groups made present
+	nested   int // interface-typed values generated below the top level
+	presentZ int // present-with-zero-value fields
+	nodes    int
+	excluded []string // shapes left out because of listed known findings
 }
 
 // sigBareVecBoxed: accessPointRule.ips is `vector<IpPort>` (bare vector of boxed
@@ -561,7 +561,16 @@ func (g *vgen) fill(ci *ctorInfo, sv reflect.Value, budget int) {
 				} else {
 					fv.Set(g.value(f.typ, budget-1))
 				}
-				flags.SetUint(flags.Uint() | 1<<uint(f.bit))
+				// The bit is left to SetFlags (derived from the non-zero value) unless the
+				// value is the zero value, where only an explicit bit (what SetX(zero)
+				// does) makes the field present; sometimes it is set explicitly anyway.
+				isZero := fv.IsZero()
+				if f.kind == kStruct {
+					isZero = fv.Addr().Interface().(interface{ Zero() bool }).Zero()
+				}
+				if isZero || rapid.IntRange(0, 3).Draw(g.t, "explicitBit") == 0 {
+					flags.SetUint(flags.Uint() | 1<<uint(f.bit))
+				}
 			}
 			continue
 		}
@@ -910,7 +919,7 @@ func findCycles() []cycle {
 		if start.schema.name != "tg" {
 			label = start.schema.name + ":" + label
 		}
-		out = append(out, cycle{sig: "C21/stack-overflow/cycle=" + label, label: label, steps: steps})
+		out = append(out, cycle{sig: sigOverflow + label, label: label, steps: steps})
 	}
 	sort.Slice(out, func(i, j int) bool { return out[i].label < out[j].label })
 	return out
